@@ -7,6 +7,7 @@ from .. import paths
 from ..core import FUNC, call_attr, calls_in, const, dotted, is_const, kwarg, norm, text, walk_local
 
 EXPLANATION = [
+    'C06.initiate-while-scanning: in Controller.on_advertising_pdu the path to create_le_connection carries no condition on the scan state: reporting to a scanner and completing a pending connection are independent.',
     'C06.public-address-type: both places where Controller builds its public address from a string (constructor and property setter) pass the PUBLIC_DEVICE_ADDRESS type.',
     'C06.address-equality: Address.__eq__ compares exactly the address bytes and the public / random kind (is_public), so identity-typed and device-typed forms of one address are equal where the controller matches pending connections against advertisers.',
     'C06.pdu-carriers: the link-layer PDU classes of bumble.ll are plain carriers: none of their methods assigns a field (no __post_init__ normalisation), so advertising and data payloads reach the peer controller as built.',
@@ -418,7 +419,26 @@ def public_address_type(ctx):
     R.check(n >= 2, rule, f'{CTRL} | public address from a string', f'{n} construction sites agree', f'only {n} construction sites found')
 
 
+def initiate_while_scanning(ctx):
+    """A received advertisement is both reported to a scanning host and matched against a pending connection: the two are
+    independent.  The match that leads to create_le_connection is not conditioned on the scan state (a central that scans
+    while it connects would otherwise never connect)."""
+    R, p = ctx.r, ctx.p
+    rule = 'C06.initiate-while-scanning'
+    fn = p.find(f'{CTRL}.on_advertising_pdu')
+    if fn is None:
+        R.bad(rule, f'{CTRL}.on_advertising_pdu', 'anchor missing')
+        return
+    calls = [c for c in calls_in(fn) if dotted(c.func) == 'self.create_le_connection']
+    R.check(len(calls) >= 1, rule, f'{CTRL}.on_advertising_pdu | connection creation', f'{len(calls)} site(s)', 'create_le_connection is no longer reached from on_advertising_pdu', p.loc(fn))
+    for c in calls:
+        g = [(norm(t), pol) for t, pol in paths.flat_guards(c, stop=fn)]
+        scan = [x for x in g if 'le_scan_enable' in x[0] or 'scan' in x[0].lower()]
+        R.check(not scan, rule, f'{CTRL}.on_advertising_pdu | create_le_connection', 'guarded by the pending connection and the advertiser address only', f'the pending connection is matched only when {scan}: a device that is scanning never sends its CONNECT_IND, connect() runs into its timeout while the advertiser keeps advertising', p.loc(c))
+
+
 RULES = [
+    ('C06.initiate-while-scanning', initiate_while_scanning),
     ('C06.public-address-type', public_address_type),
     ('C06.address-equality', address_equality),
     ('C06.pdu-carriers', pdu_carriers),
